@@ -13,7 +13,14 @@ Programs are lists of statements over any number of variables (`$x = rhs` — wh
 also by-value parameter binding and `$x = f(…)` —, `$x->p = rhs`, `place[k] = rhs`,
 `place[] = rhs`, `unset(place[k])`, `place->push/pop/shift/unshift/sort`, `new`,
 `clone`, `$x = &$y`), right-hand sides are scalars, array literals of any depth (whose
-items may read places) and reads of places of any depth.
+items may read places), reads of places of any depth, and **call results** (`RV.call p`:
+the value of a call that returns what place `p` holds — a getter, a function returning
+a static local / a global, an element of a by-value copy). A call result is the
+owner's own pointer (`return` does not copy); it reaches the next by-value boundary
+(`f($o->get())`, `new K($o->get())`, `$q->p = $o->get()`, `$c[] = $o->get()`) with no
+variable in between — a *composite* copy route. The theorems below cover these routes
+because `RV` ranges over them; `C06_call_result_copy_needed` shows that the copy made
+at such a boundary is necessary.
 
 **Full statement** (what the property asks for; *false* on this tree — see
 `C06_nested_counterexample`):
@@ -243,6 +250,55 @@ theorem C06_pinned_elemstore_counterexample :
     obs (Spec.Val.run 2 elemWitness) 1 = [0, 1, 2, 3] := by
   decide
 
+/-- `$o = new O; $o->p0 = [1,2,3]; f($o->get0())` where `f($p) { $p[] = 9; }`
+(`$v1` is the callee's parameter) -/
+def callResultWitness : List Op :=
+  [.new 0, .setProp 0 0 (.lit lit123), .setVar 1 (.call (.prop 0 0)), .setIdx (.var 1) none (.int 9)]
+
+/-- what property `p` of object `h` holds, as a list of scalars -/
+def obsProp (s : Spec.Val.St) (h p : Nat) : List Int :=
+  match s.propVal? h p with
+  | some t => leaves t
+  | none => []
+
+/-- **A call result bound to a by-value parameter must be copied.**  With the copy at
+the binding elided for call results (`Cfg.elided` — "a call result is a temporary nobody
+else holds"), value semantics fails already for a *flat* program: the getter returns the
+property's own array, the parameter becomes that array, and the callee's append lands in
+the property.  With the copy (`Cfg.fixed`) the same program is fine — it is an instance
+of `C06_value_semantics_partial`. -/
+theorem C06_call_result_copy_needed :
+    FlatWrites callResultWitness ∧
+    ¬ (∀ (nv : Nat) (ops : List Op), FlatWrites ops → abs (run .elided nv ops) = Spec.Val.run nv ops) := by
+  refine ⟨by decide, ?_⟩
+  intro h
+  have := congrArg (fun s => obsProp s 0 0) (h 2 callResultWitness (by decide))
+  revert this
+  decide
+
+/-- outcomes of that witness, as the harness replays them on the real code: the property
+reads `1,2,3` on the model of this tree and under value semantics, `1,2,3,9` under the
+elision; the parameter reads `1,2,3,9` everywhere -/
+theorem C06_call_result_witness_outcomes :
+    obsProp (abs (run .fixed 2 callResultWitness)) 0 0 = [1, 2, 3] ∧
+    obsProp (Spec.Val.run 2 callResultWitness) 0 0 = [1, 2, 3] ∧
+    obsProp (abs (run .elided 2 callResultWitness)) 0 0 = [1, 2, 3, 9] ∧
+    obs (abs (run .fixed 2 callResultWitness)) 1 = [1, 2, 3, 9] ∧
+    obs (abs (run .elided 2 callResultWitness)) 1 = [1, 2, 3, 9] := by
+  decide
+
+/-- **A composite route is an ordinary route**: on this tree (and in the reference
+semantics) a by-value boundary fed from a call result behaves exactly as if the value had
+been read from the place directly — for every statement kind that has a right-hand side,
+in every state.  (This is why the invariant and the simulation extend to composite
+routes without a new case; under `Cfg.elided` the first equation is false.) -/
+theorem C06_call_result_is_read (s : St) (x p : Nat) (b pl : Place) (k : Option IKey) :
+    stepOpt .fixed s (.setVar x (.call pl)) = stepOpt .fixed s (.setVar x (.rd pl)) ∧
+    stepOpt .fixed s (.setProp x p (.call pl)) = stepOpt .fixed s (.setProp x p (.rd pl)) ∧
+    stepOpt .fixed s (.setIdx b k (.call pl)) = stepOpt .fixed s (.setIdx b k (.rd pl)) ∧
+    ∀ t : Spec.Val.St, Spec.Val.evalRV t (.call pl) = Spec.Val.evalRV t (.rd pl) :=
+  ⟨rfl, rfl, rfl, fun _ => rfl⟩
+
 /-! ### Non-vacuity -/
 
 /- a flat program with nested values, every route and every kind of flat write:
@@ -268,5 +324,15 @@ example : (Op.setIdx (.idx (.var 1) (.int 0)) (some (.int 0)) (.int 9)).target =
     (Place.idx (.var 1) (.int 0)).root = .var 1 := ⟨rfl, rfl⟩
 /- `FlatWrites` excludes the nested witness -/
 example : ¬ FlatWrites nestedWitness := by decide
+/- composite routes inside a flat program: getter result into a parameter, a property, an element;
+   an element of a copy into a parameter — value semantics on the model, as the theorem says -/
+def prog₁ : List Op :=
+  [.new 0, .setProp 0 0 (.lit litNested), .setVar 1 (.call (.prop 0 0)), .setIdx (.var 1) none (.int 9),
+   .new 2, .setProp 2 1 (.call (.prop 0 0)), .meth (.prop 2 1) .pop,
+   .setVar 3 (.lit (.arr [(.pos, .int 0)])), .setIdx (.var 3) none (.call (.prop 0 0)),
+   .setVar 1 (.call (.idx (.var 3) (.int 1))), .meth (.var 1) .shift, .unset (.prop 0 0) (.int 0)]
+example : FlatWrites prog₁ := by decide
+example : obsProp (abs (run .fixed 4 prog₁)) 0 0 = [3] ∧ obsProp (Spec.Val.run 4 prog₁) 0 0 = [3] ∧
+    obs (abs (run .fixed 4 prog₁)) 3 = [0, 1, 2, 3] ∧ obs (abs (run .fixed 4 prog₁)) 1 = [3] := by decide
 
 end C06
